@@ -158,4 +158,31 @@ structure Func where
   ret : Ty
 deriving DecidableEq
 
+/-! ## user classes (single inheritance) -/
+
+/-- what `on_relay` / `on_func_call` distinguish about a member of a user class -/
+inductive MKind where
+  | field        -- `self.x: T = …` declared in `__init__` (DeclThisVar) or forward-declared in the class body
+  | classVar     -- `x: ClassVar[T] = …` (DeclClassVar)
+  | method       -- `def m(self, …) -> T`
+  | property     -- `@property def p(self) -> T`
+  | classMethod  -- `@classmethod def c(cls, …) -> T`
+deriving DecidableEq, Repr
+
+/-- a member of a user class: `ty` is the declared type of a variable, the declared return type of a function -/
+structure Member where
+  name : Str
+  kind : MKind
+  ty : Ty
+deriving DecidableEq
+
+structure ClassDecl where
+  name : Str
+  base : Option Str
+  members : List Member
+deriving DecidableEq
+
+/-- the user classes of a program (what the symbol table holds about them), in declaration order -/
+abbrev ClassTable := List ClassDecl
+
 end Tranp.Infer
